@@ -110,7 +110,11 @@ next_evmux(echs_evstrm_t strm, bool popp)
 	if (UNLIKELY(i >= this->ns)) {
 		/* yep, bugger off free the streams and the stream array here */
 		for (size_t j = 0U; j < this->ns; j++) {
-			free_echs_evstrm(this->s[j]);
+			/* a clone has got no stream where the original's
+			 * had ended already, cf. clone_evmux() */
+			if (LIKELY(this->s[j] != NULL)) {
+				free_echs_evstrm(this->s[j]);
+			}
 		}
 		free(this->s);
 		this->s = NULL;
